@@ -27,6 +27,7 @@ SCENARIOS = ["append", "multi", "delete", "delete_append", "expire", "delsnap"]
 STYLES = ["ctx", "explicit", "explicit_rollback"]
 BACKENDS = ["local", "s3", "s3_nocas"]
 LEASE = 60.0
+OSFUNCS = ("fsync", "replace", "write", "open", "remove", "unlink")
 
 
 def build_seed(path: str) -> None:
@@ -314,6 +315,9 @@ class C04(Check):
                 for i in range(0, n, group):
                     yield {"scenario": sc, "style": st, "backend": be, "kind": kind, "idx": list(range(i, min(n, i + group)))}
             yield {"scenario": sc, "style": st, "backend": be, "kind": "double", "idx": list(range(n))}
+            if be == "local" and (tier == "thorough" or st != "explicit"):
+                for fn in OSFUNCS:
+                    yield {"scenario": sc, "style": st, "backend": be, "kind": "os_err", "fn": fn}
         if tier == "thorough":
             for sc in SCENARIOS:
                 for st in (["ctx", "explicit_rollback"] if sc != "delsnap" else ["ctx"]):
@@ -334,6 +338,13 @@ class C04(Check):
                 run = Run(self, case, tmpl, ip)
                 if case["kind"] == "line":
                     return self._lines(case, run, res)
+                if case["kind"] == "os_err":
+                    for i in range(400):
+                        r = run.execute(self._os_armer(case["fn"], i))
+                        self._record(case, i, ("os", case["fn"], r.get("os_target", "")), r, res)
+                        if not r["fired"]:
+                            break
+                    return
                 calls = self._calls(case["scenario"], case["style"], case["backend"])
                 for i in case["idx"]:
                     if i >= len(calls):
@@ -437,6 +448,29 @@ class C04(Check):
 
         return arm
 
+    def _os_armer(self, fn: str, idx: int) -> Callable[[Any, Any, Dict[str, Any]], Callable[[], None]]:
+        """Fail the idx-th call of os.<fn> made directly by the package's own code (EIO, before
+        the call takes effect): the file fsync, the directory fsync, the rename, a write, ..."""
+        import errno
+
+        def arm(inst: Any, t: Any, ctx: Dict[str, Any]) -> Callable[[], None]:
+            real = getattr(os, fn)
+            n = {"i": -1}
+
+            def wrapper(*a: Any, **kw: Any) -> Any:
+                caller = sys._getframe(1).f_code.co_filename
+                if "/datashard/" in caller:
+                    n["i"] += 1
+                    if n["i"] == idx:
+                        ctx["fired"].append(f"os.{fn}#{idx} from {os.path.basename(caller)}:{sys._getframe(1).f_lineno}")
+                        raise OSError(errno.EIO, f"injected EIO in os.{fn}")
+                return real(*a, **kw)
+
+            setattr(os, fn, wrapper)
+            return lambda: setattr(os, fn, real)
+
+        return arm
+
     def _record(self, case: Any, idx: Any, call: Any, r: Dict[str, Any], res: CaseResult) -> None:
         res.evals += 1
         if not r["fired"]:
@@ -449,8 +483,10 @@ class C04(Check):
             res.count("ambiguous_seen")
         if out[0] == "raised" and out[1] in ("KeyboardInterrupt", "SystemExit"):
             res.count("baseexception_cases")
-        res.key([case["scenario"], case["style"], case["backend"], case["kind"], idx])
-        cls = _callclass(call)
+        res.key([case["scenario"], case["style"], case["backend"], case["kind"], case.get("fn"), idx])
+        if case["kind"] == "os_err":
+            res.count("os_level_faults_fired")
+        cls = _callclass(call) if case["kind"] != "os_err" else f"os.{case['fn']}:" + r["fired"][0].split(" from ")[1].split(":")[0]
         for sig, msg in r["viol"][:2]:
             res.violation(f"{sig}:{case['kind']}@{cls}:{case['backend']}",
                           f"{case['scenario']}/{case['style']}: fault {case['kind']} at call #{idx} {call}: {msg}",
